@@ -71,6 +71,9 @@ def _sha_tree(root: pathlib.Path):
     return out
 
 
+_SHARED = {}
+
+
 def _one_run(run: dict) -> dict:
     import nunavut.cli
     import nunavut.cli.runners as runners
@@ -107,6 +110,14 @@ def _one_run(run: dict) -> dict:
         return types
 
     runners.read_dsdl_namespace = reader
+    real_create = runners.ArgparseRunner._create_language_context
+    if run.get("share_lctx"):
+        # library use: ONE LanguageContext for all namespace trees of the process (a build script / watch loop that re-reads definitions)
+        def create(self):
+            if _SHARED.get("lctx") is None:
+                _SHARED["lctx"] = real_create(self)
+            return _SHARED["lctx"]
+        runners.ArgparseRunner._create_language_context = create
     try:
         extra = list(args.lookup_dir) if args.lookup_dir is not None else []
         runner = runners.ArgparseRunner(args.root_namespace, args, extra)
@@ -126,6 +137,7 @@ def _one_run(run: dict) -> dict:
         err = f"{type(e).__name__}: {e}"
     finally:
         runners.read_dsdl_namespace = real_reader
+        runners.ArgparseRunner._create_language_context = real_create
     gen = None
     if seen.get("generated") is not None:
         outp = pathlib.Path(run["out"]).resolve()
@@ -160,9 +172,9 @@ def _worker(jobfile: str) -> int:
 # =====================================================================================================================
 # harness side
 # =====================================================================================================================
-def make_run(argv, out, cwd, transform=None, edits=None, gen_calls=None):
+def make_run(argv, out, cwd, transform=None, edits=None, gen_calls=None, share_lctx=False):
     return {"argv": [str(a) for a in argv], "out": str(out), "cwd": str(cwd), "transform": transform,
-            "edits": [[str(p), t] for p, t in (edits or [])], "gen_calls": gen_calls}
+            "edits": [[str(p), t] for p, t in (edits or [])], "gen_calls": gen_calls, "share_lctx": share_lctx}
 
 
 # =====================================================================================================================
@@ -207,6 +219,10 @@ def history_stream(ctx, repo_src, root, lookups, langs, edits_spec, quick=True, 
         # S3 a dependency is swapped for another type with the same bit length set; second generation in the process, fresh outdir
         scen.append(("swap-dependency-same-size-second-generation", lambda b, o: [make_run(argv(lang, b, o[0]), o[0], scratch / "cwd"),
                                                                                 make_run(argv(lang, b, o[1]), o[1], scratch / "cwd", edits=abs_edits(b, "swap"))], (), "swap", None))
+        # S3b the same with ONE LanguageContext reused for both namespace trees (library use; the CLI makes a new one per run)
+        scen.append(("swap-dependency-same-size-reused-language-context",
+                     lambda b, o: [make_run(argv(lang, b, o[0]), o[0], scratch / "cwd", share_lctx=True),
+                                   make_run(argv(lang, b, o[1]), o[1], scratch / "cwd", edits=abs_edits(b, "swap"), share_lctx=True)], (), "swap", None))
         # S4 a run with auditing info, then the plain run (other outdir)
         scen.append(("auditing-run-then-plain-run", lambda b, o: [make_run(argv(lang, b, o[0], ["--embed-auditing-info"]), o[0], scratch / "cwd"),
                                                                 make_run(argv(lang, b, o[1]), o[1], scratch / "cwd")], (), None, None))
@@ -254,6 +270,71 @@ def history_stream(ctx, repo_src, root, lookups, langs, edits_spec, quick=True, 
         bad = sorted(k for k, v in fr["files"].items() if hl["files"].get(k) != v)
         findings.append({**pl, "kind": "differs" if bad else "equal", "files": bad[:8], "n": len(bad), "n_files": len(fr["files"]),
                          "sha256": [hl["files"].get(bad[0]), fr["files"].get(bad[0])] if bad else None})
+    return findings
+
+
+
+# =====================================================================================================================
+# histories ACROSS processes: state that outlives the interpreter (caches under the temp / home directory) would carry
+# one run's compile-time decisions into the next process
+# =====================================================================================================================
+def cross_process_stream(ctx, repo_src, root, lookups, langs, quick=True, tag="x"):
+    """Per language and scenario: process 1 runs with options A, then process 2 runs with options B — both with the SAME private
+    TMPDIR / HOME / XDG_CACHE_HOME —, and B alone in a process whose TMPDIR / HOME are fresh; also A then B inside one interpreter.
+    Returns findings: dict(scenario, lang, how ('next-process' | 'same-interpreter'), kind ('equal' | 'differs' | 'outcome' | 'worker-error'), files…)."""
+    scratch = ctx.scratch / f"xproc_{tag}"
+    (scratch / "cwd").mkdir(parents=True, exist_ok=True)
+    root, lookups = pathlib.Path(root), [pathlib.Path(l) for l in lookups]
+    ws = ["--trim-blocks", "--lstrip-blocks"]
+    scen = {l: [("whitespace-options-then-default", ws, [])] for l in langs}
+    if not quick:
+        for l in langs:
+            scen[l].append(("default-then-whitespace-options", [], ws))
+        scen["c"].append(("asserts-big-endian-then-default", ["--enable-serialization-asserts", "--target-endianness", "big"], []))
+        scen["cpp"].append(("c++17-pmr-then-default", ["--language-standard", "c++17-pmr"], []))
+        scen["py"].append(("pyi-then-default", ["--output-extension", ".pyi"], []))
+
+    def env_for(d):
+        for sub in ("tmp", "home", "home/.cache"):
+            (d / sub).mkdir(parents=True, exist_ok=True)
+        return {"TMPDIR": str(d / "tmp"), "TEMP": str(d / "tmp"), "TMP": str(d / "tmp"), "HOME": str(d / "home"),
+                "XDG_CACHE_HOME": str(d / "home" / ".cache"), "USERPROFILE": str(d / "home")}
+
+    def argv(lang, out, extra):
+        return ["--experimental-languages", "-l", lang, "-O", out, root] + [x for lk in lookups for x in ("-I", lk)] + list(extra)
+
+    round1, round2, plan = [], [], []
+    for lang in langs:
+        for name, A, B in scen[lang]:
+            sid = f"{tag}{len(plan)}"
+            S = scratch / sid
+            common_ = {"hashseed": "0", "fake_time": 1.0e9, "fake_step": 0.0}
+            round1.append({"name": sid + "p1", "runs": [make_run(argv(lang, S / "out1", A), S / "out1", scratch / "cwd")], "env": env_for(S / "shared"), **common_})
+            round2.append({"name": sid + "p2", "runs": [make_run(argv(lang, S / "out2", B), S / "out2", scratch / "cwd")], "env": env_for(S / "shared"), **common_})
+            round1.append({"name": sid + "f", "runs": [make_run(argv(lang, S / "outf", B), S / "outf", scratch / "cwd")], "env": env_for(S / "fresh"), **common_})
+            round1.append({"name": sid + "s", "runs": [make_run(argv(lang, S / "outs1", A), S / "outs1", scratch / "cwd"),
+                                                       make_run(argv(lang, S / "outs2", B), S / "outs2", scratch / "cwd")], "env": env_for(S / "same"), **common_})
+            plan.append({"scenario": name, "lang": lang, "sid": sid, "first_options": A, "options": B,
+                         "outs": {"next-process": str(S / "out2"), "same-interpreter": str(S / "outs2"), "fresh": str(S / "outf")}})
+    results = exec_jobs(repo_src, ctx.scratch, round1, max_workers=14)
+    results.update(exec_jobs(repo_src, ctx.scratch, round2, max_workers=14))
+    findings = []
+    for pl in plan:
+        sid = pl["sid"]
+        fr = results[sid + "f"]
+        for how, res in (("next-process", results[sid + "p2"]), ("same-interpreter", results[sid + "s"])):
+            if isinstance(fr, Exception) or isinstance(res, Exception):
+                findings.append({**pl, "how": how, "kind": "worker-error", "error": str(res if isinstance(res, Exception) else fr)[:500]})
+                continue
+            f0, r = fr[0], res[-1]
+            if bool(f0["error"]) != bool(r["error"]):
+                findings.append({**pl, "how": how, "kind": "outcome", "errors": [str(f0["error"])[:300], str(r["error"])[:300]]})
+            elif f0["error"]:
+                findings.append({**pl, "how": how, "kind": "skipped-error", "errors": [str(f0["error"])[:300]]})
+            else:
+                bad = compare(f0["files"], r["files"])
+                findings.append({**pl, "how": how, "kind": "differs" if bad else "equal", "files": bad[:8], "n": len(bad), "n_files": len(f0["files"]),
+                                 "sha256": [f0["files"].get(bad[0]), r["files"].get(bad[0])] if bad else None})
     return findings
 
 
@@ -398,7 +479,7 @@ FACT_DETAILS = {"file_pp_calls_pure": "file_pp_state_writes", "line_pp_reset_com
                 "file_pp_source_matches_model": "file_pp_source_diffs", "generator_runs_file_pps_once_in_order": "generator_pp_loop_problems",
                 "no_undeclared_ambient_inputs": "ambient_probes", "no_unlisted_shared_containers": "shared_containers",
                 "registered_callables_classified": "unclassified_callables", "registered_callables_as_expected": "unexpected_ambient_callables",
-                "no_unlisted_process_state": "process_state_unlisted"}
+                "no_unlisted_process_state": "process_state_unlisted", "memo_keys_determine_result": "memo_keys_coarser_than_function"}
 
 
 def report_source_facts(ctx, info, names):
